@@ -4,30 +4,36 @@
 // C18 and C20 start from.  Run with the repository as working directory:  srcfacts <repo> <out.v>
 //
 // Facts:
-//   src_consts         every package-level integer constant                              (name, value)
-//   src_strconsts      every package-level string constant up to 64 octets               (name, value)
-//   src_hexconsts      every longer string constant that is a hexadecimal numeral        (name, value as Z)
-//   src_registry       stores  m[k] = &T{f: c, ...} / T{...} / funcname  in init()       (map, key, type-or-func, fields)
-//   src_global_uses    every use of a package-level variable that is not a plain read    (var, func, kind, detail)
-//                      kind: write | addr | method | arg | range-write
-//   src_field_writes   assignments through a receiver / pointer parameter                (func, path, how)
-//   src_slice_flows    where octets of a []byte parameter can end up                     (func, target, kind)
-//                      kind: view (a field / returned value aliases the parameter) | param-write (writes through it)
-//                            | copy (field receives a copy: append(field, p...) or make+copy)
+//
+//	src_consts         every package-level integer constant                              (name, value)
+//	src_strconsts      every package-level string constant up to 64 octets               (name, value)
+//	src_hexconsts      every longer string constant that is a hexadecimal numeral        (name, value as Z)
+//	src_registry       stores  m[k] = &T{f: c, ...} / T{...} / funcname  in init()       (map, key, type-or-func, fields)
+//	src_global_uses    every use of a package-level variable that is not a plain read    (var, func, kind, detail)
+//	                   kind: write | addr | method | arg | range-write
+//	src_field_writes   assignments through a receiver / pointer parameter                (func, path, how)
+//	src_slice_flows    where octets of a []byte parameter can end up                     (func, target, kind)
+//	                   kind: view (a field / returned value aliases the parameter) | param-write (writes through it)
+//	                         | copy (field receives a copy: append(field, p...) or make+copy)
 package main
 
 import (
+	"bytes"
+	"crypto/sha256"
+	"encoding/json"
 	"fmt"
 	"go/ast"
 	"go/constant"
 	"go/importer"
 	"go/parser"
+	"go/printer"
 	"go/token"
 	"go/types"
 	"math/big"
 	"os"
 	"path/filepath"
 	"sort"
+	"strconv"
 	"strings"
 )
 
@@ -73,8 +79,8 @@ type pkgInfo struct {
 }
 
 func main() {
-	if len(os.Args) != 3 {
-		fatal("usage: srcfacts <repo> <out.v>")
+	if len(os.Args) != 3 && len(os.Args) != 4 {
+		fatal("usage: srcfacts <repo> <out.v> [dict.json]")
 	}
 	root, _ := filepath.Abs(os.Args[1])
 	dirs := map[string]*pkgInfo{}
@@ -145,12 +151,71 @@ func main() {
 					}
 					collectGlobalUses(pi, fd, fn)
 					collectFieldWrites(pi, fd, fn)
+					collectDict(pi, fd, fn)
 				}
 			}
 		}
 	}
 	collectSliceFlows(pis)
 	write(os.Args[2])
+	if len(os.Args) == 4 {
+		writeDict(os.Args[3])
+	}
+}
+
+// ---------------------------------------------------------------- per-function fingerprints and literals
+// Not facts about the model: material for the SEARCH.  The harness compares the fingerprints with those recorded for
+// the tree the model was transcribed from (tools/srcfacts/baseline.json); the literals of functions that changed since
+// then are used as a dictionary by the input generators (sizes, identifiers, strings), like a fuzzer's dictionary.
+type fnDict struct {
+	Fingerprint string   `json:"fingerprint"`
+	Strings     []string `json:"strings"`
+	Ints        []int64  `json:"ints"`
+}
+
+var dict = map[string]*fnDict{}
+
+func collectDict(pi *pkgInfo, fd *ast.FuncDecl, fn string) {
+	var buf bytes.Buffer
+	_ = printer.Fprint(&buf, token.NewFileSet(), fd) // positions dropped: formatting / comments do not matter
+	sum := sha256.Sum256(buf.Bytes())
+	d := &fnDict{Fingerprint: fmt.Sprintf("%x", sum[:8])}
+	seenS, seenI := map[string]bool{}, map[int64]bool{}
+	ast.Inspect(fd, func(n ast.Node) bool {
+		e, ok := n.(ast.Expr)
+		if !ok {
+			return true
+		}
+		tv, ok := pi.info.Types[e]
+		if !ok || tv.Value == nil {
+			return true
+		}
+		switch tv.Value.Kind() {
+		case constant.String:
+			v := constant.StringVal(tv.Value)
+			if len(v) > 0 && len(v) <= 40 && !seenS[v] {
+				seenS[v] = true
+				d.Strings = append(d.Strings, v)
+			}
+		case constant.Int:
+			if v, exact := constant.Int64Val(tv.Value); exact && !seenI[v] && v >= 0 && v <= 1<<32 {
+				seenI[v] = true
+				d.Ints = append(d.Ints, v)
+			}
+		}
+		return true
+	})
+	sort.Strings(d.Strings)
+	sort.Slice(d.Ints, func(i, j int) bool { return d.Ints[i] < d.Ints[j] })
+	dict[fn] = d
+}
+
+func writeDict(path string) {
+	b, _ := json.MarshalIndent(dict, "", " ")
+	if err := os.WriteFile(path, b, 0o644); err != nil {
+		fatal("%v", err)
+	}
+	_ = strconv.Itoa
 }
 
 func funcName(pi *pkgInfo, fd *ast.FuncDecl) string {
